@@ -27,7 +27,8 @@ Definition latin1_name : text := [108; 97; 116; 105; 110; 45; 49].           (* 
    placeholder become a '%(name)s' slot, the pieces are joined with nothing in between and applied
    with '%'; both sides of the round trip use UTF-8, PATH_INFO is a latin-1 rendering of bytes;
    route_url separates extra elements from the path with one '/' unless the path ends with one;
-   every name the model follows is bound once in its scope, by the def that is pinned / translated *)
+   every name the model follows is bound once in its scope, by the def that is pinned / translated;
+   the closures of a compiled route (matcher, generator, q) keep nothing between calls *)
 Definition gen_sources_ok : bool :=
   text_eqb hole_slot_fmt slot_fmt_expected && text_eqb star_slot_fmt slot_fmt_expected
   && text_eqb template_join_sep [] && template_applied_by_percent
@@ -36,7 +37,7 @@ Definition gen_sources_ok : bool :=
   && text_eqb url_quote_str_codec utf8_name && text_eqb url_quote_other_codec utf8_name
   && text_eqb path_info_encode_codec latin1_name && text_eqb path_info_decode_codec utf8_name
   && text_eqb route_url_suffix_sep [47] && text_eqb route_url_endswith_arg [47]
-  && names_bound_once.
+  && names_bound_once && closures_stateless.
 
 (* ------------------------------------------------------------------ pattern translation *)
 (* _compile_route walks route_re.split(route) once and feeds both halves: every literal piece goes
@@ -410,27 +411,29 @@ Definition path_info_pop (script pinfo : text) : text * text :=
 Definition env_with (e : C17.env) (s : text) : C17.env :=
   C17.mkEnv (C17.e_scheme e) (C17.e_http_host e) (C17.e_server_name e) (C17.e_server_port e) s.
 
-Definition gen_step (mf : bool) (e : C17.env) (rs : list (text * C17.pattern)) (target : text) (st : rstate)
+(* [c]: the lru_cache of url._join_elements as earlier generations in the process left it (C17's model of it) *)
+Definition gen_step (mf : bool) (e : C17.env) (rs : list (text * C17.pattern)) (target : text) (st : rstate) (c : C17.jcache)
            (els : list C17.pval) (o : C17.overrides) (kw : list (text * C17.kwval))
-  : (C17.res text * C17.res text) * rstate :=
+  : (C17.res text * C17.res text) * rstate * C17.jcache :=
   let cur := env_with e (rs_script st) in
-  let u := C17.route_url [] cur rs target els o kw in
+  let u := C17.route_url c cur rs target els o kw in
+  let c1 := match els with [] => c | _ => C17.warm_step c els end in
   let s_eff := if mf then match rs_memo st with Some s0 => s0 | None => rs_script st end else rs_script st in
-  let p := C17.route_path [] (env_with e s_eff) rs target els o kw in
+  let p := C17.route_path c1 (env_with e s_eff) rs target els o kw in
   let memo' := if mf && forallb valid_scalar s_eff then Some s_eff else rs_memo st in
-  ((u, p), mkRS (rs_script st) (rs_pinfo st) memo').
+  ((u, p), mkRS (rs_script st) (rs_pinfo st) memo', c1).
 
 (* outputs of the generation steps (with the SCRIPT_NAME current at that step), in order *)
-Fixpoint run_req (mf : bool) (e : C17.env) (rs : list (text * C17.pattern)) (target : text) (st : rstate)
+Fixpoint run_req (mf : bool) (e : C17.env) (rs : list (text * C17.pattern)) (target : text) (st : rstate) (c : C17.jcache)
          (steps : list rstep) : list (text * (C17.res text * C17.res text)) :=
   match steps with
   | [] => []
-  | RSet s :: r => run_req mf e rs target (mkRS s (rs_pinfo st) (rs_memo st)) r
+  | RSet s :: r => run_req mf e rs target (mkRS s (rs_pinfo st) (rs_memo st)) c r
   | RPop :: r => let '(s', p') := path_info_pop (rs_script st) (rs_pinfo st) in
-                 run_req mf e rs target (mkRS s' p' (rs_memo st)) r
+                 run_req mf e rs target (mkRS s' p' (rs_memo st)) c r
   | RGen els o kw :: r =>
-      let '(up, st') := gen_step mf e rs target st els o kw in
-      (rs_script st, up) :: run_req mf e rs target st' r
+      let '(up, st', c') := gen_step mf e rs target st c els o kw in
+      (rs_script st, up) :: run_req mf e rs target st' c' r
   end.
 
 (* declarative: every generation step is route_url / route_path of the environ as it is then *)
@@ -500,7 +503,7 @@ Definition run_C06 (v : val) : val :=
                   | Some src => match parse orc src with C01.Ok p => Some p | _ => None end
                   | None => None
                   end in
-        let outs := run_req request_state_written e rs target (mkRS (C17.e_script e) pinfo None) steps in
+        let outs := run_req request_state_written e rs target (mkRS (C17.e_script e) pinfo None) [] steps in
         Some (VL [VL [VL (map C01.put_status sts);
                       VL (map (fun x : text * (C17.res text * C17.res text) =>
                                  VL [C17.put_res (fst (snd x)); C17.put_res (snd (snd x));
@@ -515,8 +518,9 @@ Definition run_C06 (v : val) : val :=
         olet orc := C01.get_oracle o in
         olet d := get_decl2 d in
         olet calls := get_list_of C17.get_kw calls in
-        let st := parse orc (snd d) in
-        match st with
+        (* the specification does not depend on the facts guard: a drifting tree is still judged *)
+        let specs := VL (map (fun kw => put_spec_out (spec_route orc [d] (fst d) empty_env [] no_overrides kw)) calls) in
+        match parse orc (snd d) with
         | C01.Ok p =>
             let us := history_ck segment_key_stringified [] (to_pattern p) calls in
             Some (VL [VL [VI 0; VL (map (fun u : C17.res text =>
@@ -525,10 +529,10 @@ Definition run_C06 (v : val) : val :=
                                                | C17.Ok t => vopt C01.put_dict (match_back orc p (unquote t))
                                                | C17.Err _ => VL []
                                                end]) us)];
-                      VL (map (fun kw => put_spec_out (spec_route orc [d] (fst d) empty_env [] no_overrides kw)) calls)])
-        | C01.CompileError => Some (VL [VL [VI 1; VL []]; VL []])
+                      specs])
+        | C01.CompileError => Some (VL [VL [VI 1; VL []]; specs])
         | C01.Unsupported => Some (VL [VL [VI 2; VL []]; VL []])
-        | C01.FactsDrift => Some (VL [VL [VI 3; VL []]; VL []])
+        | C01.FactsDrift => Some (VL [VL [VI 3; VL []]; specs])
         end
     | _ => None
     end).
